@@ -72,13 +72,22 @@ func (s BPlusTreeStore) Get(table storage.Table, key []byte) (*storage.KVPair, e
 
 func (s BPlusTreeStore) GetLast(table storage.Table) (*storage.KVPair, error) {
 	result := new(storage.KVPair)
-	s.db.DescendGreaterThan(KVItem{[]byte{table.Prefix()}, nil}, func(i btree.Item) bool {
+	prefix := table.Prefix()
+	found := false
+	// start just above the table's key space and walk down to its greatest key
+	s.db.DescendLessOrEqual(KVItem{[]byte{prefix + 1}, nil}, func(i btree.Item) bool {
 		item := i.(KVItem)
-		result.Key = item.Key[1:]
-		result.Value = item.Value
+		if item.Key[0] > prefix {
+			return true // the pivot itself: an entry of the next table
+		}
+		if item.Key[0] == prefix {
+			result.Key = item.Key[1:]
+			result.Value = item.Value
+			found = true
+		}
 		return false
 	})
-	if result.Key == nil {
+	if !found {
 		return nil, storage.ErrKeyNotFound
 	}
 	return result, nil
@@ -137,6 +146,7 @@ type BPlusKVPairReader struct {
 	prefix  byte
 	db      *btree.BTree
 	lastKey []byte
+	started bool // lastKey has already been returned to the caller
 }
 
 func NewBPlusKVPairReader(table storage.Table, db *btree.BTree) *BPlusKVPairReader {
@@ -155,11 +165,16 @@ func (r *BPlusKVPairReader) Read(buffer []*storage.KVPair) (n int, err error) {
 		}
 		key := i.(KVItem).Key
 
-		if bytes.Compare(key[:1], r.lastKey[:1]) == 0 && bytes.Compare(key, r.lastKey) != 0 {
-			buffer[n] = &storage.KVPair{key[1:], i.(KVItem).Value}
-			n++
+		if key[0] != r.prefix {
+			return false // left the table
 		}
+		if r.started && bytes.Equal(key, r.lastKey) {
+			return true // returned by the previous Read
+		}
+		buffer[n] = &storage.KVPair{key[1:], i.(KVItem).Value}
+		n++
 		r.lastKey = key
+		r.started = true
 		return true
 	})
 	return n, nil
